@@ -1,6 +1,7 @@
 import Tickit.Model.RBCopy
 import Tickit.Proof.RBCopy
 import Tickit.Proof.RBCopyMove
+import Tickit.Gen.RBCopy
 /-
   C13 — copying, moving and blitting buffer regions preserve content cell for cell.
 
@@ -194,6 +195,32 @@ theorem copy_spec_counterexample_as_found :
   have := h cexRun ⟨0, 1, 2, 3⟩ ⟨0, 3, 2, 3⟩ cexRun_wf rfl rfl (by unfold Inside Rect.Nonempty; decide) 1 3
   rw [copy_misses_cell_as_found.1, copy_misses_cell_as_found.2] at this
   exact absurd this (by decide)
+
+/-! ## The tie to the source text (regenerated from src/renderbuffer.c on every run, bin/extract.d/33_rbcopy.py) -/
+
+/-- The `copy_skip` argument at the three call sites of `copyrect()` is what `blit` / `copy` / `move` pass. -/
+theorem gen_call_sites :
+    Gen.RBCopy.copySkipBlit = false ∧ Gen.RBCopy.copySkipCopy = true ∧ Gen.RBCopy.copySkipMove = true := by
+  decide
+
+/-- The early-return test and the two direction flags of the source are the model's. -/
+theorem gen_directions (same : Bool) (lo co : Int) :
+    (Gen.RBCopy.nullCopy same lo co = true ↔ (same = true ∧ lo = 0 ∧ co = 0)) ∧
+    Gen.RBCopy.upwards same lo co = (same && decide (lo > 0)) ∧
+    Gen.RBCopy.leftwards same lo co = (same && decide (lo = 0) && decide (co > 0)) := by
+  refine ⟨?_, rfl, rfl⟩
+  unfold Gen.RBCopy.nullCopy
+  simp only [Bool.and_eq_true, decide_eq_true_eq]
+  constructor
+  · rintro ⟨⟨h1, h2⟩, h3⟩; exact ⟨h1, h2, h3⟩
+  · rintro ⟨h1, h2, h3⟩; exact ⟨⟨h1, h2⟩, h3⟩
+
+/-- The loop body of the working tree is the repaired text (`Variant.repaired`): it captures `remaining` and
+    `active` before the dispatch, copies TEXT runs by reference and holds a reference on the string meanwhile. -/
+theorem gen_tree_is_repaired :
+    Gen.RBCopy.captures = Variant.repaired.capture ∧ Gen.RBCopy.textByRef = Variant.repaired.byRef ∧
+    Gen.RBCopy.holdsStringRef = true := by
+  decide
 
 /-! ## Non-vacuity -/
 
